@@ -119,10 +119,11 @@ func (f *frame) headerPhiOverrides(li *loopInfo, pick func(phi *ssa.Phi) (Val, b
 		if !ok {
 			continue
 		}
-		if phi.Comment != "" {
-			ov[phi.Comment] = SV{Term: v.T, Typ: phi.Type()}
-		} else if strings.HasPrefix(li.header.Comment, "rangeindex") {
+		if phi.Comment == "rangeindex" || (phi.Comment == "" && strings.HasPrefix(li.header.Comment, "rangeindex")) {
+			// #i = number of completed iterations = index of the next element
 			ov["#i"] = SV{Term: fmt.Sprintf("(+ %s 1)", v.T), Typ: phi.Type()}
+		} else if phi.Comment != "" {
+			ov[phi.Comment] = SV{Term: v.T, Typ: phi.Type()}
 		}
 	}
 	return ov
